@@ -472,10 +472,11 @@ func h3GenReq(r *KRng, tier string, maxBody, n, nb int, smallHdr bool) H3Req {
 	return q
 }
 
-// h3MaxKeys: Go maps with more than 8 entries are iterated in an order that depends on the process's hash key (not on
-// the seeded iteration offset), and http3 writes header fields in map order: more distinct names than this in one
-// header map would make the bytes on the wire differ from process to process (replays would not be bit-for-bit).
-const h3MaxKeys = 8
+// h3MaxKeys: a Go map that ever holds 8 entries and is then assigned to (even an update of an existing key), or holds
+// more than 8, is converted into a hash table whose iteration order depends on the process's random hash key, not only
+// on the seeded iteration offset; http3 writes header fields in map order. With more distinct names than this in one
+// header map the bytes on the wire would differ from process to process (replays would not be bit-for-bit).
+const h3MaxKeys = 7
 
 func h3TrimKeys(kvs []H3KV, budget int) []H3KV {
 	seen := map[string]bool{}
@@ -1192,7 +1193,7 @@ func (x *h3Run) serveHTTP(w http.ResponseWriter, r *http.Request) {
 		x.res.Logf("%s: header map order at handler end: %q", what, ks)
 	}
 	if len(hd) > h3MaxKeys {
-		x.res.Probe("h:header-map-above-8-keys")
+		x.res.Probe("h:header-map-above-7-keys")
 		x.res.Logf("%s: %d keys in the response header map", what, len(hd))
 	}
 	so.done = true
